@@ -1,4 +1,5 @@
 import IndicatifModel.Model.Template
+import IndicatifModel.Proofs.TemplateFidelity
 /-!
 # C10 — Template parsing is total and preserves literal text
 -/
@@ -57,5 +58,24 @@ theorem C10_brace_order :
     parse {} "abc{ d".toList = .ok [.lit "{abc ".toList, .lit "d".toList] ∧
     parse { f10 := true } "abc{ d".toList = .ok [.lit "abc{ ".toList, .lit "d".toList] := by
   constructor <;> decide +kernel
+
+/-- **C10 (fidelity).** For every template built from the documented grammar — literal text (any
+characters except a line break; braces are written doubled), placeholders
+`{key}` / `{key:[<|^|>][width][!][.style[/alt_style]]}` with a key free of whitespace, `}` and `:`, a
+width of at most 65535, and line breaks — the parser accepts it and produces exactly the parts the
+template denotes: adjacent text as one literal (braces single again), each placeholder with the
+alignment, width, truncation flag and style names as written, each line break as a newline part.
+(`denote` is defined in `Proofs/TemplateFidelity.lean` without reference to the parser.) -/
+theorem C10_faithful (items : List Item) (hok : ∀ i ∈ items, i.ok = true) :
+    parse PFix.current (render items) = .ok (denote items) := parse_render _ items hok
+
+/-- non-vacuity: a template with escaped braces, every attribute, and a second line -/
+example :
+    let sp : Spec := ⟨some .center, some "40".toList, true, some "cyan".toList, some "blue".toList⟩
+    let items : List Item := [.text "a{".toList, .ph "bar".toList (some sp), .text "}".toList, .nl, .ph "msg".toList none]
+    (∀ i ∈ items, i.ok = true) ∧ render items = "a{{{bar:^40!.cyan/blue}}}\n{msg}".toList ∧
+    denote items = [.lit "a{".toList, .ph "bar".toList .center (some 40) true (some "cyan".toList) (some "blue".toList),
+      .lit "}".toList, .newline, .ph "msg".toList .left none false none none] := by
+  refine ⟨by decide +kernel, by decide +kernel, by decide +kernel⟩
 
 end IndicatifModel.Template
